@@ -3,13 +3,28 @@
 From Coq Require Import List ZArith NArith Bool.
 From Coq.Strings Require Import Byte.
 Import ListNotations.
-From BWTable Require Import Cells Fmt StrOrder Sort SortProofs SortSpec Limit Reduce ReduceSpec GroupProofs Expr ExprSpec Exec.
+From BWTable Require Import Cells Fmt StrOrder Sort SortProofs ValueOrder SortSpec Limit Reduce ReduceSpec GroupProofs Expr ExprSpec Exec ValueEngine.
 Open Scope Z_scope.
 
 (* the repairs applied to /repo so far (the model follows the CURRENT tree) *)
 Definition cur_reject_negative_limit : bool := true.    (* repo commit 0089c85 *)
 Definition cur_repeated_keys_fixed : bool := true.      (* repo commit 67e0e70 *)
 Definition cur_pushdown_guarded : bool := true.         (* repo commit e34ecad (planner builder) *)
+
+(* [vm]: the implementation compares BY VALUE (repairs F27 / F28 applied); false = by formatted strings (as found).
+   The checks pass the constant that describes the CURRENT tree. *)
+Definition sort_m (vm : bool) := if vm then table_sortv else table_sort.
+Definition less_m (vm : bool) (ks : list skey) := if vm then row_ltv ks else row_lt ks.
+Definition strict_weak_m (vm : bool) (ks : list skey) (rows : list row) : bool :=
+  if vm then forallb (has_keys ks) rows else homogeneous ks rows.
+Definition reduce_m (vm : bool) := if vm then reducev else reduce.
+Definition pgb_m (vm : bool) (fx : pg_fixes) := if vm then project_and_group_byv else project_and_group_by fx.
+Definition leftover_m (vm : bool) := if vm then reducev_leftover (@go_isort row) else reduce_leftover (@go_isort row).
+Definition spec_reduce_m (vm : bool) := if vm then spec_reducev else spec_reduce.
+Definition eval_m (vm : bool) := if vm then evalv else eval.
+Definition having_m (vm : bool) := if vm then havingv else having.
+Definition exec_ol_m (vm : bool) := if vm then exec_order_limitv_with (@go_isort row) else exec_order_limit_with (@go_isort row).
+Definition exec_tail_m (vm : bool) (fx : pg_fixes) := if vm then execute_tailv_with (@go_isort row) else execute_tail_with (@go_isort row) fx.
 
 Fixpoint row_eqb (a b : row) : bool :=
   match a, b with
@@ -77,15 +92,15 @@ Definition d12c : list skey -> list row -> bool :=
           (fun l => match l_val l with VFloat f => sf_in_domain f | _ => false end).
 
 (* ---- Table.Sort ---- *)
-Definition sort_verdict (c : sort_cfg) (inp : list row) (out : option (list row)) : N :=
+Definition sort_verdict (vm : bool) (c : sort_cfg) (inp : list row) (out : option (list row)) : N :=
   let ind12 := match c with Some ks => d12c ks inp | None => false end in
   let agree :=
-    match table_sort c inp, out with
+    match sort_m vm c inp, out with
     | Ok m, Some o =>
         (if Nat.leb (length inp) 12 then rows_eqb m o else true) &&
         perm_b inp o &&
         match c with
-        | Some ks => (if homogeneous ks inp then no_inversion_b (row_lt ks) o else true) &&
+        | Some ks => (if strict_weak_m vm ks inp then no_inversion_b (less_m vm ks) o else true) &&
                      (if ind12 then spec_sorted_b ks o else true)
         | None => rows_eqb inp o
         end
@@ -132,7 +147,7 @@ Definition keys_perm_b (a b : list skey) : bool :=
 
 (* res = None: the statement was rejected by the parser/checker.  [exact]: the order of the rows before sorting is
    the same in both runs (single-clause statements), so small tables must match Go's insertion sort exactly. *)
-Definition e2e12_verdict (outs : list binding) (keys seen : list skey) (lim : option Z) (pushdown : option (list bool)) (exact : bool)
+Definition e2e12_verdict (vm : bool) (outs : list binding) (keys seen : list skey) (lim : option Z) (pushdown : option (list bool)) (exact : bool)
     (base : list row) (res : option (list row)) : N :=
   match checker_loop outs keys [] false, res with
   | inl _, None => verdict true true false
@@ -144,7 +159,7 @@ Definition e2e12_verdict (outs : list binding) (keys seen : list skey) (lim : op
       let c : sort_cfg := match keys with [] => None | _ => Some seen end in
       let fetched := fetch_pushdown (pushdown_mask cur_pushdown_guarded c pushdown) lim base in
       let ind12 := match c with Some ks => d12c ks fetched | None => false end in
-      let homog := match c with Some ks => homogeneous ks fetched | None => true end in
+      let homog := match c with Some ks => strict_weak_m vm ks fetched | None => true end in
       let n_ok := match lim with
                   | Some n => Nat.eqb (length o) (Nat.min (Z.to_nat n) (length fetched))
                   | None => Nat.eqb (length o) (length fetched)
@@ -156,13 +171,13 @@ Definition e2e12_verdict (outs : list binding) (keys seen : list skey) (lim : op
             match c with
             | None => true
             | Some ks =>
-                if homog then no_inversion_b (row_lt ks) o &&
-                              forallb (fun d => forallb (fun k => negb (row_lt ks d k)) o) dropped
+                if homog then no_inversion_b (less_m vm ks) o &&
+                              forallb (fun d => forallb (fun k => negb (less_m vm ks d k)) o) dropped
                 else true
             end && (match c with Some ks => if ind12 then spec_sorted_b ks o else true | None => true end)
         end in
       let ex := if exact && Nat.leb (length fetched) 12
-                then match exec_order_limit_with (@go_isort row) cur_pushdown_guarded pushdown c lim base with
+                then match exec_ol_m vm cur_pushdown_guarded pushdown c lim base with
                      | Ok m => rows_eqb m o
                      | _ => false
                      end
@@ -235,22 +250,23 @@ Fixpoint bindings_eqb (a b : list binding) : bool :=
   end.
 
 (* outcome codes of observations: 0 ok, 1 error, 2 panic *)
-Definition reduce_verdict (bs : list binding) (c : sort_cfg) (aaps : list aap) (inp : list row)
+Definition reduce_verdict (vm : bool) (bs : list binding) (c : sort_cfg) (aaps : list aap) (inp : list row)
     (outcome : N) (obs : list binding) (out : list row) : N :=
   let t := mkTable bs inp in
   let small := Nat.leb (length inp) 12 in
   (* more than 12 rows outside D11 (a key column of several kinds: rowLess is no strict weak order; or rows that
      rowLess cannot tell apart but whose ids differ): pdqsort's output is unspecified and so is the grouping; only
      the spec comparison below is made *)
-  let unspecified := negb small && match c with Some ks => negb (d11 ks inp) | None => false end in
+  let in_d11 := match c with Some ks => if vm then forallb (has_keys ks) inp else d11 ks inp | None => false end in
+  let unspecified := negb small && negb in_d11 && match c with Some _ => true | None => false end in
   let agree :=
-    match reduce c aaps t, outcome with
+    match reduce_m vm c aaps t, outcome with
     | Ok m, 0%N => bindings_eqb (t_bindings m) obs &&
                    (if small then rows_agree obs (t_rows m) out
                     else if unspecified then true else multiset_agree obs (t_rows m) out)
     | Err EReduceConfig, 1%N => bindings_eqb bs obs && rows_agree bs inp out
     | Err _, 1%N => bindings_eqb bs obs &&
-                    match reduce_leftover (@go_isort row) c t with
+                    match leftover_m vm c t with
                     | Ok l => if small then rows_agree bs (t_rows l) out else multiset_agree bs (t_rows l) out
                     | _ => false
                     end
@@ -264,10 +280,10 @@ Definition reduce_verdict (bs : list binding) (c : sort_cfg) (aaps : list aap) (
     match c with
     | Some ks =>
         (* inside D11 (theorem C11_groups_partial) a disagreement with the spec is a contradiction: 2 *)
-        match spec_reduce (map k_b ks) aaps inp with
-        | Ok sp => if multiset_agree obs sp out then (if d11 ks inp then 1%N else v)
-                   else if d11 ks inp then 2%N else 4%N
-        | _ => if d11 ks inp then 2%N else 4%N
+        match spec_reduce_m vm (map k_b ks) aaps inp with
+        | Ok sp => if multiset_agree obs sp out then (if in_d11 then 1%N else v)
+                   else if in_d11 && negb vm then 2%N else 4%N
+        | _ => if in_d11 && negb vm then 2%N else 4%N
         end
     | None => v
     end
@@ -300,15 +316,15 @@ Definition spec_aaps (projs : list proj) (rows : list row) : option (list aap) :
         match k with Some k => Some (mkAap (p_bind p) (proj_out p) k :: l) | None => None end
     end) (Some []) projs.
 
-Definition e2e11_verdict (group_by : list binding) (projs : list proj) (bs : list binding) (base : list row)
+Definition e2e11_verdict (vm : bool) (group_by : list binding) (projs : list proj) (bs : list binding) (base : list row)
     (exact : bool) (outcome : N) (obs : list binding) (out : list row) : N :=
   let outs := map proj_out projs in
-  let model := bind (project_and_group_by cur_fixes group_by projs (mkTable bs base))
+  let model := bind (pgb_m vm cur_fixes group_by projs (mkTable bs base))
                     (fun t => Ok (match t_rows t with [] => mkTable outs [] | _ => t end)) in
   let small := exact && Nat.leb (length base) 12 in
   (* outside D11 the grouping depends on the order of the rows before the sort: it is determined only when that
      order is the same in both runs (single clause) and Go sorts by insertion (at most 12 rows) *)
-  let unspecified := negb small && negb (d11 (build_cfg cur_fixes group_by projs []) base) in
+  let unspecified := negb small && negb (if vm then true else d11 (build_cfg cur_fixes group_by projs []) base) in
   let agree :=
     match model, outcome with
     | Ok m, 0%N => bindings_eqb (t_bindings m) obs &&
@@ -324,7 +340,7 @@ Definition e2e11_verdict (group_by : list binding) (projs : list proj) (bs : lis
   match spec_aaps projs base with
   | None => if N.eqb outcome 0 then 8%N else v      (* no sum is defined: a result (instead of an error) is wrong *)
   | Some sa =>
-      match spec_reduce (map (resolve_group projs) group_by) sa base with
+      match spec_reduce_m vm (map (resolve_group projs) group_by) sa base with
       | Ok sp => if N.eqb outcome 0 then (if bindings_eqb outs obs && multiset_agree obs sp out then v else 4%N)
                  else 7%N                            (* the property demands a result, the engine failed *)
       | _ => v
@@ -363,8 +379,8 @@ Fixpoint codes_eqb (a b : list N) : bool :=
   end.
 
 (* does the value semantics disagree with the model on some row (where both are defined) *)
-Definition spec_disagrees (e : expr) (rows : list row) : bool :=
-  existsb (fun r => match eval e r, spec_eval e r with
+Definition spec_disagrees (vm : bool) (e : expr) (rows : list row) : bool :=
+  existsb (fun r => match eval_m vm e r, spec_eval e r with
                     | Ok b, Some b' => negb (Bool.eqb b b')
                     | _, _ => false
                     end) rows.
@@ -383,10 +399,10 @@ Definition tree_differs (ts : list tok) : bool :=
   end.
 
 (* build outcome: 0 ok, 1 error, 2 panic *)
-Definition expr_verdict (ts : list tok) (outcome : N) (tree : option expr) (rows : list row) (results : list N) : N :=
+Definition expr_verdict (vm : bool) (ts : list tok) (outcome : N) (tree : option expr) (rows : list row) (results : list N) : N :=
   let agree :=
     match new_evaluator ts, outcome, tree with
-    | Ok e, 0%N, Some t => expr_eqb e t && codes_eqb (map (fun r => res_code (eval e r)) rows) results
+    | Ok e, 0%N, Some t => expr_eqb e t && codes_eqb (map (fun r => res_code (eval_m vm e r)) rows) results
     | Err _, 1%N, _ => true
     | Panic _, 2%N, _ => true
     | _, _, _ => false
@@ -395,17 +411,17 @@ Definition expr_verdict (ts : list tok) (outcome : N) (tree : option expr) (rows
   else if tree_differs ts then 9%N
   else if rejected_but_meaningful ts then 7%N
   else match new_evaluator ts with
-       | Ok e => if spec_disagrees e rows then 4%N else 0%N
+       | Ok e => if spec_disagrees vm e rows then 4%N else 0%N
        | _ => 0%N
        end.
 
 (* HAVING through the planner; outcome: 0 ok, 1 rejected at parse time, 2 execution error, 3 panic *)
-Definition e2e13_verdict (ts : list tok) (bs : list binding) (base : list row) (exact : bool)
+Definition e2e13_verdict (vm : bool) (ts : list tok) (bs : list binding) (base : list row) (exact : bool)
     (outcome : N) (out : list row) : N :=
   let agree :=
     match new_evaluator ts with
     | Ok e =>
-        match having (Some e) base, outcome with
+        match having_m vm (Some e) base, outcome with
         | Ok kept, 0%N => if exact then rows_agree bs kept out else multiset_agree bs kept out
         | Err _, 2%N => true
         | Panic _, 3%N => true
@@ -419,13 +435,13 @@ Definition e2e13_verdict (ts : list tok) (bs : list binding) (base : list row) (
   else if tree_differs ts then 9%N
   else if rejected_but_meaningful ts then 7%N
   else match new_evaluator ts with
-       | Ok e => if spec_disagrees e base then 4%N else 0%N
+       | Ok e => if spec_disagrees vm e base then 4%N else 0%N
        | _ => 0%N
        end.
 
 (* ---- all clauses together: the tail of Execute (Exec.execute_tail) ------------------------------------------------- *)
 (* outcome: 0 ok, 1 rejected at parse time, 2 execution error, 3 panic *)
-Definition tail_verdict (group_by : list binding) (projs : list proj) (keys : list skey) (having_toks : list tok)
+Definition tail_verdict (vm : bool) (group_by : list binding) (projs : list proj) (keys : list skey) (having_toks : list tok)
     (lim : option Z) (bs : list binding) (base : list row) (outcome : N) (obs : list binding) (out : list row) : N :=
   let outs := map proj_out projs in
   let cfg : res sort_cfg :=
@@ -447,7 +463,7 @@ Definition tail_verdict (group_by : list binding) (projs : list proj) (keys : li
   let agree :=
     match cfg, hav with
     | Ok c, Ok h =>
-        match execute_tail_with (@go_isort row) cur_fixes (mkTail group_by projs c h lim) (mkTable bs base), outcome with
+        match exec_tail_m vm cur_fixes (mkTail group_by projs c h lim) (mkTable bs base), outcome with
         | Ok t, 0%N => bindings_eqb (t_bindings t) obs &&
                        (if Nat.leb (length base) 12 then rows_agree obs (t_rows t) out
                         else multiset_agree obs (t_rows t) out)
@@ -468,8 +484,8 @@ Definition tail_verdict (group_by : list binding) (projs : list proj) (keys : li
                                 | None => acc
                                 end) projs r in
       let ident := map (fun p => mkProj (proj_out p) None OpNone false) projs in
-      match execute_tail_with (@go_isort row) cur_fixes (mkTail [] ident c h lim)
-                              (mkTable (bs ++ dedup_bindings outs bs) (map simul base)) with
+      match exec_tail_m vm cur_fixes (mkTail [] ident c h lim)
+                        (mkTable (bs ++ dedup_bindings outs bs) (map simul base)) with
       | Ok t => if N.eqb v 0 && N.eqb outcome 0 && negb (multiset_agree obs (t_rows t) out) then 4%N else v
       | _ => v
       end
